@@ -8,6 +8,9 @@
 //!
 //! Every reader counts the requests it served short, so that the floors can prove that short reads
 //! really happened.
+//!
+//! The refusing environments: `with_failing_writer` (an error after n bytes), `with_full_writer` (`Ok(0)`
+//! after n bytes), `with_short_slice`, `with_failing_reader` (an I/O error - not end-of-file - after n bytes).
 
 use std::io::{self, BufReader, Cursor, ErrorKind, Read, Seek, SeekFrom, Write};
 
@@ -178,6 +181,32 @@ pub fn with_seek_reader<T>(kind: ReaderKind, data: &[u8], f: impl FnOnce(&mut dy
 	}
 }
 
+/// a reader that serves the first `limit` bytes of `data` (every request in full, none across `limit`) and fails
+/// every request after them with an I/O error (not end-of-file): returns f's result and the bytes handed out
+pub fn with_failing_reader<T>(data: &[u8], limit: usize, f: impl FnOnce(&mut dyn Read) -> T) -> (T, usize) {
+	struct Failing<'a> {
+		data: &'a [u8],
+		pos: usize,
+	}
+	impl Read for Failing<'_> {
+		fn read(&mut self, buf: &mut [u8]) -> io::Result<usize> {
+			if buf.is_empty() {
+				return Ok(0);
+			}
+			if self.pos >= self.data.len() {
+				return Err(io::Error::other("the device does not answer (scripted failure)"));
+			}
+			let n = buf.len().min(self.data.len() - self.pos);
+			buf[..n].copy_from_slice(&self.data[self.pos..self.pos + n]);
+			self.pos += n;
+			Ok(n)
+		}
+	}
+	let mut r = Failing { data: &data[..limit.min(data.len())], pos: 0 };
+	let out = f(&mut r);
+	(out, r.pos)
+}
+
 fn scripted(data: &[u8], max: usize, boundary: Boundary, interrupt: bool) -> Scripted<'_> {
 	Scripted { data, pos: 0, max: max.max(1), boundary, interrupt, interrupted_last: false, trace: ReadTrace::default() }
 }
@@ -291,6 +320,8 @@ struct ScriptedW {
 	interrupted_last: bool,
 	/// fail with this error once `out` has reached this many bytes
 	fail_at: Option<usize>,
+	/// accept nothing more (`Ok(0)`) once `out` has reached this many bytes: a full `&mut [u8]`, a full pipe
+	zero_at: Option<usize>,
 	trace: WriteTrace,
 }
 
@@ -317,6 +348,9 @@ impl Write for ScriptedW {
 			}
 			n = n.min(limit - self.out.len());
 		}
+		if let Some(limit) = self.zero_at {
+			n = n.min(limit.saturating_sub(self.out.len()));
+		}
 		if n < buf.len() {
 			self.trace.short_accepts += 1;
 		}
@@ -329,7 +363,7 @@ impl Write for ScriptedW {
 }
 
 fn scripted_w(max: usize, split: Option<usize>, interrupt: bool, fail_at: Option<usize>) -> ScriptedW {
-	ScriptedW { out: Vec::new(), max: max.max(1), split, interrupt, interrupted_last: false, fail_at, trace: WriteTrace::default() }
+	ScriptedW { out: Vec::new(), max: max.max(1), split, interrupt, interrupted_last: false, fail_at, zero_at: None, trace: WriteTrace::default() }
 }
 
 /// runs `f` (which is `value.write`) on a writer of this kind; returns f's result, the bytes that arrived, the trace.
@@ -380,6 +414,15 @@ pub fn with_writer(kind: WriterKind, announced: usize, f: impl FnOnce(&mut dyn W
 /// a writer that accepts `limit` bytes and then fails: returns f's result and the bytes that arrived before
 pub fn with_failing_writer(limit: usize, f: impl FnOnce(&mut dyn Write) -> io::Result<()>) -> (io::Result<()>, usize) {
 	let mut w = scripted_w(usize::MAX, None, false, Some(limit));
+	let r = f(&mut w);
+	(r, w.out.len())
+}
+
+/// a writer that accepts `limit` bytes and from then on accepts nothing (`Ok(0)`, never an error): returns f's result
+/// and the bytes that arrived
+pub fn with_full_writer(limit: usize, f: impl FnOnce(&mut dyn Write) -> io::Result<()>) -> (io::Result<()>, usize) {
+	let mut w = scripted_w(usize::MAX, None, false, None);
+	w.zero_at = Some(limit);
 	let r = f(&mut w);
 	(r, w.out.len())
 }
@@ -455,6 +498,19 @@ pub fn self_test() -> Result<(), String> {
 	let (r, n) = with_failing_writer(10, |w| w.write_all(&data));
 	if r.is_ok() || n != 10 {
 		return Err("the failing writer did not fail after 10 bytes".into());
+	}
+	let (r, n) = with_full_writer(10, |w| w.write_all(&data));
+	if r.as_ref().err().map(|e| e.kind()) != Some(ErrorKind::WriteZero) || n != 10 {
+		return Err("the full writer did not stop accepting after 10 bytes".into());
+	}
+	let (r, n) = with_failing_reader(&data, 10, |r| {
+		let mut a = vec![0u8; 10];
+		let first = r.read_exact(&mut a).map(|_| a);
+		let mut b = [0u8; 1];
+		(first, r.read_exact(&mut b).err().map(|e| e.kind()))
+	});
+	if r.0.ok().as_deref() != Some(&data[..10]) || r.1 != Some(ErrorKind::Other) || n != 10 {
+		return Err("the failing reader did not serve 10 bytes and then fail with an I/O error".into());
 	}
 	if with_short_slice(200, 1, |w| w.write_all(&data)).is_ok() {
 		return Err("the short slice accepted everything".into());
